@@ -3,7 +3,8 @@
    (1) copy isolation, in a store model of Go slices (model/Alias.v: backing arrays by
        address, WarriorData.Copy allocates, addWarrior keeps only the copy);
    (2) map iteration order: the EQU cycle check (graph.go, model/ExprEval.v) gives the same
-       answer for every order in which the map of names is ranged over;
+       answer for every order in which the map of names is ranged over, and the expansion of the
+       EQU values (expandExpressions, expr.go) returns the same table for every order;
    (3) schedules: jobs whose steps write only their own state end in the same state under
        every interleaving — with (4) the literal models being functions of their arguments,
        so that repeating a job repeats its result.
@@ -11,7 +12,7 @@
    only, and the absence of data races are facts about the Go runtime and source which no
    executable model expresses: they are checked on every run by the harness built with
    -race (jobs on 1..32 threads, results compared with the sequential ones). *)
-From GM Require Import Base Text Token Lexer Scanner ExprSpec ExprEval Compile Sim Alias C14Proof.
+From GM Require Import Base Text Token Lexer Scanner ExprSpec ExprEval Compile Sim Alias C14Proof C14Expand.
 From Coq Require Import Permutation.
 Open Scope N_scope.
 
@@ -47,6 +48,27 @@ Proof. exact cycle_check_order_independent'. Qed.
 Print Assumptions C14_cycle_check_order.
 
 (* and it always answers: the depth-first walk never exhausts its fuel, whatever the graph *)
+(* expandExpressions ranges over a Go map as well: whatever the order, every EQU name is mapped to the same
+   tokens - its value with every EQU name inside it substituted, to any depth (the fully substituted value is
+   unique: C14Expand.fs_unique) *)
+Theorem C14_expansion_order :
+  forall values values' r1 r2,
+    Permutation values values' -> NoDup (map fst values) ->
+    expand_expressions values (build_graph values) = Some (Some r1) ->
+    expand_expressions values' (build_graph values') = Some (Some r2) ->
+    forall k, sym_find k r1 = sym_find k r2.
+Proof. exact expand_any_order. Qed.
+Print Assumptions C14_expansion_order.
+
+(* the premises are satisfiable: three EQUs, one order and its reverse *)
+Example C14_expansion_order_example :
+  let T := mkT tokText in let n := fun c => mkT tokNumber [c] in let plus := mkT tokSymbol [43] in
+  let vs := [(s2t "a", [T (s2t "b"); plus; T (s2t "c")]); (s2t "b", [n 49; plus; T (s2t "c")]); (s2t "c", [n 50])] in
+  exists r1 r2, expand_expressions vs (build_graph vs) = Some (Some r1) /\
+                expand_expressions (rev vs) (build_graph (rev vs)) = Some (Some r2) /\
+                sym_find (s2t "a") r1 = Some [n 49; plus; n 50; plus; n 50] /\ sym_find (s2t "a") r2 = sym_find (s2t "a") r1.
+Proof. cbv zeta. eexists _, _. split; [vm_compute; reflexivity|]. split; [vm_compute; reflexivity|]. split; vm_compute; reflexivity. Qed.
+
 Theorem C14_cycle_check_total : forall g : graph, graph_has_cycle g <> None.
 Proof. exact cycle_check_total. Qed.
 Print Assumptions C14_cycle_check_total.
